@@ -186,6 +186,14 @@ func (w *World) spawnObserver() {
 			case *Cmd:
 				e.ID = p.ID
 				e.Info = "Cmd"
+			case ves.DeathLetterEvent:
+				// an undeliverable user message that is itself a DeathLetterEvent value (sent as such by a workload, marked
+				// "dlwrap"); anything else of this shape is the library wrapping its own dead letters and is not attributed
+				e.Info = "ves.DeathLetterEvent"
+				if c, ok := p.Envelope.Message().(*Cmd); ok && strings.HasPrefix(c.Sender, "dlwrap:") {
+					e.ID = c.ID
+					e.Info = "DeathLetterEvent(Cmd)"
+				}
 			default:
 				e.Info = fmt.Sprintf("%T", p)
 				if v := reflect.ValueOf(p); v.Kind() == reflect.Struct {
@@ -331,6 +339,17 @@ func (p *Probe) receive(ctx vivid.ActorContext, beh string) {
 	case *vivid.PipeResult:
 		info := fmt.Sprintf("msg=%v err=%v", describeMsg(m.Message), m.Error)
 		p.record(ctx, Event{Kind: "PipeResult", Info: info})
+		if p.Spec.OnOther != nil {
+			p.Spec.OnOther(ctx, p, m)
+		}
+	case ves.DeathLetterEvent:
+		// a workload's DeathLetterEvent value carrying one of its commands ("dlwrap", see C03): handled like the command
+		if c, ok := m.Envelope.Message().(*Cmd); ok && strings.HasPrefix(c.Sender, "dlwrap:") {
+			p.record(ctx, Event{Kind: "Cmd", ID: c.ID, Info: fmt.Sprintf("from=%s seq=%d", c.Sender, c.Seq)})
+			p.State++
+			return
+		}
+		p.record(ctx, Event{Kind: "Other", Info: fmt.Sprintf("%T", m)})
 		if p.Spec.OnOther != nil {
 			p.Spec.OnOther(ctx, p, m)
 		}
